@@ -180,10 +180,11 @@ def r2_drivers(ctx):
         # find_match forwards to naive_re_search on the borrowed global manager
         clo = cr.fn(FM + '::{closure#0}')
         an = analyse(ctx, cfg, FM, [], uninterpreted=lambda p: True)
-        okw = False
+        # on EVERY path (no shortcut may answer without running the search)
+        okw = bool(an.rets) and not an.panics
         for o in an.rets:
             t = an.ip.to_term(o.state, o.value)
-            okw = t[0] == 'call' and t[1].endswith('LocalKey::<T>::with') and t[2][1][0] == 'closure' and t[2][1][2] == (A(0), A(1), T.var('a2', 'usize'), T.var('a3', 'bool'))
+            okw = okw and t[0] == 'call' and t[1].endswith('LocalKey::<T>::with') and t[2][1][0] == 'closure' and t[2][1][2] == (A(0), A(1), T.var('a2', 'usize'), T.var('a3', 'bool')) and len(o.state.calls) == 1
         okc = False
         if clo is not None:
             an2 = analyse(ctx, cfg, clo.path, [], uninterpreted=lambda p: True)
